@@ -389,7 +389,15 @@ func (e *exec) reader(r int) {
 			e.mu.Unlock()
 			edge := func() int64 {
 				b := (now/e.cfg.R - int64(rr.Intn(4))) * e.cfg.R * tick
-				return b + int64(rr.Intn(3)-1)
+				if hm := e.db.Head().MinTime(); hm != math.MaxInt64 && rr.Chance(0.5) {
+					// the end of the range the next head compaction moves into a block
+					rg := e.cfg.R * tick
+					b = (hm/rg + 1) * rg
+					if hm < 0 && hm%rg != 0 {
+						b -= rg
+					}
+				}
+				return b + int64([]int{-1, -1, 0, 0, 1}[rr.Intn(5)])
 			}
 			switch rr.Intn(3) {
 			case 0:
